@@ -67,12 +67,13 @@ enum Variant
   V_CV_STRUCT_VALUE_GENERIC,
   V_RANGE_LONG,
   V_CV_ARRAY2D,
+  V_RANGE_INT_COUNTREF,
   V_COUNT
 };
 static const char* kVar[] = { "string_uptr",   "string_std",  "string_uptr_from_cell", "string_std_from_cell", "range_char",   "range_short",
                               "range_int",     "range_ll",    "range_double",          "range_int_from_cell",  "cv_ptr_prim",  "cv_ptr_prim_from_cell",
                               "cv_fund_in_cell", "cv_struct", "cv_array_field",        "cv_address_from_cell", "cv_buffer_address", "deny_access_copy",
-                              "string_const_uptr", "string_const_uptr_from_cell", "cv_array_field_by_reference", "cv_buffer_address_from_cell", "cv_struct_by_value", "cv_struct_by_value_generic_verifier", "range_long", "cv_array_of_arrays_field" };
+                              "string_const_uptr", "string_const_uptr_from_cell", "cv_array_field_by_reference", "cv_buffer_address_from_cell", "cv_struct_by_value", "cv_struct_by_value_generic_verifier", "range_long", "cv_array_of_arrays_field", "range_int_count_read_from_sandbox_memory" };
 static_assert(sizeof(kVar) / sizeof(kVar[0]) == V_COUNT);
 
 enum Mut
@@ -85,12 +86,14 @@ enum Mut
   M_NULL_CELL,
   M_SCRIBBLE,
   M_RETARGET_END, // the cell is pointed at the last bytes of the region: whatever extent was checked for the old target does not fit there
+  M_COUNT_GROW, // the element count the application read from sandbox memory (variant range_int_count_read_from_sandbox_memory) grows by 9
   M_ALLOC_FAIL, // not a guest mutation: the k-th host allocation made inside the call fails (k counts allocations, not accesses)
   M_COUNT
 };
-static const char* kMut[] = { "remove_terminator", "insert_terminator", "lengthen", "flip_element", "retarget_cell", "null_cell", "scribble_region", "retarget_cell_to_region_end", "host_allocation_fails" };
+static const char* kMut[] = { "remove_terminator", "insert_terminator", "lengthen", "flip_element", "retarget_cell", "null_cell", "scribble_region", "retarget_cell_to_region_end", "count_cell_grows", "host_allocation_fails" };
 
 constexpr uint32_t OFF_CELL = 32; // pointer cell
+constexpr uint32_t OFF_COUNT = 48; // a size_t the application reads its element count from (8 bytes, the application's own layout)
 constexpr uint32_t OFF_B = 1024; // second buffer (retarget target)
 constexpr uint32_t OFF_A_INTERIOR = 256;
 
@@ -100,6 +103,7 @@ static size_t elem_size(int v)
     case V_RANGE_SHORT:
       return 2;
     case V_RANGE_INT:
+    case V_RANGE_INT_COUNTREF:
     case V_RANGE_INT_VOL:
     case V_CV_PRIM:
     case V_CV_PRIM_VOL:
@@ -215,6 +219,13 @@ struct ToctouWorld : World
       case M_RETARGET_END: {
         uint32_t b = (uint32_t)(S - 2);
         memcpy(g + OFF_CELL, &b, 4);
+        break;
+      }
+      case M_COUNT_GROW: {
+        if (variant != V_RANGE_INT_COUNTREF)
+          return;
+        size_t n = lenA + 9;
+        memcpy(g + OFF_COUNT, &n, sizeof n);
         break;
       }
       default:
@@ -389,6 +400,10 @@ struct ToctouWorld : World
     }
     uint32_t repA = offA;
     memcpy(g + OFF_CELL, &repA, 4);
+    {
+      size_t count_cell = lenA;
+      memcpy(g + OFF_COUNT, &count_cell, sizeof count_cell);
+    }
     versions.clear();
     snapshot();
     faults_fired_in_window = 0;
@@ -499,6 +514,19 @@ struct ToctouWorld : World
             },
             lenA);
           break;
+        case V_RANGE_INT_COUNTREF: {
+          // the application passes, as the count, an lvalue that lives in sandbox memory (it obtained the address through
+          // the unchecked accessor): the call sees the value it had when the call was made
+          const size_t* count_in_sandbox = reinterpret_cast<const size_t*>(impl->mem.base + OFF_COUNT);
+          u_int = pA((int*)0).copy_and_verify_range(
+            [&](std::unique_ptr<int[]> v) {
+              check_block(v.get(), false);
+              verifier_saw(v.get(), lenA * 4, !v);
+              return v;
+            },
+            *count_in_sandbox);
+          break;
+        }
         case V_RANGE_LL:
           u_ll = pA((long long*)0).copy_and_verify_range(
             [&](std::unique_ptr<long long[]> v) {
@@ -769,6 +797,8 @@ struct ToctouWorld : World
       } else if (u_int) {
         kept_ptr = u_int.get();
         kept_n = lenA * 4;
+        if (block_overrun)
+          c.violate("C09", cls("library_wrote_behind_the_buffer_it_delivered"), "the buffer for %u elements was allocated with %zu bytes; bytes behind them were overwritten", lenA, block_asked);
       } else if (u_ll) {
         kept_ptr = u_ll.get();
         kept_n = lenA * 8;
